@@ -2,6 +2,7 @@
 //! gsemc — bounded exhaustive exploration of dvb_gse_rust against the properties C01..C20.
 mod common;
 mod explore;
+mod live;
 mod props;
 mod refm;
 mod replay;
